@@ -4,9 +4,9 @@ from props._runcommon import RUN_TRUSTED, RUN_ASSUMPTIONS, PropRunStream
 from run import selftest as W
 
 PROPERTY = "C05"
-LEAN_MODULES = ["LccModel.Props.C05"]
-PROPS_FILES = ["LccModel/Props/C05.lean"]
-NAMESPACES = {"LccModel/Props/C05.lean": "LccModel.C05"}
+LEAN_MODULES = ["LccModel.Props.C05", "LccModel.Props.C05Run"]
+PROPS_FILES = ["LccModel/Props/C05.lean", "LccModel/Props/C05Run.lean"]
+NAMESPACES = {"LccModel/Props/C05.lean": "LccModel.C05", "LccModel/Props/C05Run.lean": "LccModel.C05Run"}
 DRIVER = "drivers/Run.lean"
 TRUSTED_BASE = RUN_TRUSTED + ["every N-thread run is compared with a 1-thread run of the same project by the oracle (timestamp-free normal forms, attachments by content)"]
 ASSUMPTIONS = RUN_ASSUMPTIONS + ["schedule-independent features only (profile 'independent': no Abort*, no --stop-on-failure, no per-thread fixtures); sibling ranks pairwise distinct (declared tests always have distinct ranks; tests added with add_test_into_suite get one since fix a149e47)"]
